@@ -18,6 +18,7 @@ MANIFEST = {
     'note': 'Trusted: numpy. Subset and chain vectors are built with the library\'s own get_subset_vector / get_chain_vector and compared with the reference construction first. The two *_augmented maps need a phase and belong to C15.',
     'technique': 'set-theoretic reference model vs the real index maps, exhaustive enumeration of selection structures + seeded random',
 }
+LOGGER_ON_ODD_SHARDS = True
 BUDGET_S = {'quick': 60, 'thorough': 360}
 MAXLEN = {'quick': 10, 'thorough': 12}
 NRANDOM = {'quick': 300, 'thorough': 4000}
@@ -78,6 +79,14 @@ def check(ctx, cv, sel, case, tag):
     ctx.count('structures:' + tag)
     V = ctx.violation
     got_sv = np.asarray(C.get_subset_vector(sel.copy()))
+    if ctx.evaluations % 5 == 0:
+        # the same selection handed over as a list / tuple of Python bools, or as 0/1 integers
+        for form, v in (('list', [bool(b) for b in sel]), ('tuple', tuple(bool(b) for b in sel)), ('int array', sel.astype(int))):
+            alt = np.asarray(C.get_subset_vector(v))
+            ctx.count('selection_passed_as:' + form)
+            if not np.array_equal(alt, sv):
+                V('subset-vector:' + form.replace(' ', '-'), 'get_subset_vector(%s as %s) = %s, expected %s' % (sel.astype(int).tolist(), form, alt.tolist(), sv.tolist()), case)
+                return
     if not np.array_equal(got_sv, sv):
         V('subset-vector', 'get_subset_vector(%s) = %s, expected %s' % (sel.astype(int).tolist(), got_sv.tolist(), sv.tolist()), case)
         return
